@@ -1529,6 +1529,9 @@ class AllConnGraph(nx.DiGraph):
                 if indices is None:
                     model._inputs._abs_set_val(node[1], tval)
                 else:
+                    if isinstance(tval, np.ndarray) and tval.size == 1:
+                        # a one entry array can't be assigned to a scalar slot (int index)
+                        tval = tval.reshape(())
                     model._inputs._abs_set_val(node[1], tval, idx=indices())
         else:
             srcval = src_meta.val
